@@ -2,6 +2,15 @@
 
 S (schedules): stateless exploration of 2-3 real threads through the library's shared-state sections under the baton
 scheduler of verif.mc.sched (line-level scheduling points on the declared code objects, preemption bounding).
+   Targets: (1) the pypdf patch / extract / restore section (+ the variant whose last thread fails), (2) the AES round-key LRU
+   cache, (3) the lazily built type registry, (4) COMPUTE KERNELS (_T_kernel): k threads call pure functions of one library
+   module on different arguments while EVERY function of that module (helpers, comprehensions, closures) is a traced section;
+   each thread must get what the call returns alone, and the calls repeated afterwards must still return it. This is where
+   module-level scratch space shows (a buffer, table or "current" value that a hot function keeps outside its frame).
+   Kernel instances: the pure-Python AES of the PDF reader - aesdec (cbc_decrypt AES-128 | cbc_decrypt AES-256 | ecb_decrypt
+   AES-192), aesenc (the same with encrypt), aesmix (decrypt | encrypt under the same key | ecb_encrypt); 2 blocks of data,
+   round-key cache empty at the start. ~135 scheduling points per thread, so the bounds are: quick = 2 threads, <= 1
+   preemption (aesdec, aesenc); thorough = 2 and 3 threads, <= 1 preemption (aesdec, aesenc, aesmix)  [KERNEL_BOUNDS].
 H (histories): every ordered pair (and triples over a sub-alphabet) of OPERATIONS in one process; after every step the
 result digest equals the isolated baseline (fresh process) and the process-global state snapshot is unchanged.
 
@@ -11,7 +20,10 @@ Restore operations exist for one document per result class (the smallest payload
 
 Documents: fixtures of every format family, truncated fixtures (rejected at the front door), generated packages (incl. ones
 lacking optional parts, under different path arguments) and the deep-nesting family of c15_docs (well-formed documents on
-which a recursive extractor gives up - if at all - in the middle of its walk: shape x depth ladder L0/4, 2 L0, 16 L0, 128 L0).
+which a recursive extractor gives up - if at all - in the middle of its walk: shape x depth ladder L0/4, 2 L0, 16 L0, 128 L0)
+and the mid-way archive failures of c15_docs ("midfail:<kind>": the container opens and lists, the packed data cannot be
+decoded - 7z x {lzma, lzma2, copy} x {solid, per-file, two folders} with a damaged pack stream or a forged unpack size, zip
+with one damaged member, damaged tar.gz / tar.xz / tar.bz2; quick: 4 kinds, thorough: all 12).
 
 Two kinds of histories:
   warm  (fmt "hist")  the worker first performs every operation once (lazy imports, one-way initialisations), then runs
@@ -27,6 +39,8 @@ signal handlers, gc, csv field limit, logging/warnings switches, ... see c15_sta
 additionally the pypdf patch depth, archive configuration, temp dir listing, open descriptors, warnings filters, logger
 configuration, mimetypes tables, thread count, and the identity of every module-level / class-level binding of the
 library's own and of all loaded third-party modules (c15_state.ModState: generic "patched third-party function" detector).
+Temporary files: every worker / cold child has a private, initially empty temp dir; it must be empty again after the FIRST
+execution of every operation (warm-up) and at the end of every cold history, and unchanged after every warm history.
 """
 from __future__ import annotations
 
@@ -253,7 +267,167 @@ class _T_pdfpatchfail(_T_pdfpatch):
         return bodies
 
 
-TARGETS = {"pdfpatch": _T_pdfpatch, "pdfpatchfail": _T_pdfpatchfail, "roundkeys": _T_roundkeys, "registry": _T_registry}
+# ------------------------------------------------------------------ target 4: compute kernels (shared scratch space)
+
+def _module_codes(mod):
+    """code objects of EVERY function defined in `mod` (nested functions, comprehensions and generator expressions included)"""
+    import types
+    out = set()
+
+    def walk(c):
+        out.add(c)
+        for k in c.co_consts:
+            if isinstance(k, types.CodeType):
+                walk(k)
+    for v in vars(mod).values():
+        if isinstance(v, types.FunctionType) and v.__module__ == mod.__name__:
+            walk(v.__code__)
+        elif isinstance(v, type) and v.__module__ == mod.__name__:
+            for w in vars(v).values():
+                f = getattr(w, "__func__", w)
+                if isinstance(f, types.FunctionType):
+                    walk(f.__code__)
+    return out
+
+
+class _T_kernel:
+    """k threads run PURE functions of one library module on DIFFERENT arguments; every function of the module is a traced
+    section (so a thread can be descheduled between any two lines of the kernel and of its helpers). Whatever such a function
+    keeps at module level while it computes - a preallocated scratch buffer, a "current key", a half-built table - is shared
+    by the threads: each thread's result must equal what the same call returns when it runs alone, and the same calls
+    repeated afterwards, one after the other, must still return it."""
+    name = "kernel"
+    MODULE = None
+
+    def calls(self):            # -> [(label, callable)] one per thread (3 entries; 2-thread runs use the first two)
+        raise NotImplementedError
+
+    def reset(self):            # put the module's caches into their initial state
+        pass
+
+    def residue(self):          # -> message | None
+        return None
+
+    def __init__(self):
+        import importlib
+        self.mod = importlib.import_module(self.MODULE)
+        self.codes = _module_codes(self.mod)
+        self.cs = self.calls()
+        self.reset()
+        self.exp = [repr(f()) for _, f in self.cs]          # sequential reference, computed before any tracing
+        self.reset()
+        if [repr(f()) for _, f in self.cs] != self.exp:
+            raise RuntimeError(f"{self.name}: the kernel calls are not deterministic when run alone")
+
+    def setup(self):
+        self.reset()
+        return {"res": {}}
+
+    def bodies(self, n, ctx, sched):
+        _swap_locks([self.mod], sched)
+
+        def mk(i):
+            def body():
+                ctx["res"][i] = repr(self.cs[i][1]())
+            return body
+        return [mk(i) for i in range(n)]
+
+    def observe(self, n, ctx, s):
+        msgs = []
+        ok = []
+        for i in range(n):
+            lab = self.cs[i][0]
+            if s.exc[i] is not None:
+                msgs.append(("exception", f"thread {i} ({lab}) raised {type(s.exc[i]).__name__}: {s.exc[i]} while the other thread(s) ran {[self.cs[j][0] for j in range(n) if j != i]}"))
+                ok.append("exc")
+            elif s.deadlock:
+                ok.append("dl")
+            else:
+                good = ctx["res"].get(i) == self.exp[i]
+                ok.append(good)
+                if not good:
+                    msgs.append(("result", f"thread {i} ({lab}) returned {str(ctx['res'].get(i))[:80]} under this interleaving with {[self.cs[j][0] for j in range(n) if j != i]}; "
+                                           f"alone it returns {self.exp[i][:80]}"))
+        if s.deadlock:
+            msgs.append(("deadlock", "no enabled thread"))
+        else:
+            _swap_locks([self.mod], None)
+            after = []
+            for i in range(n):
+                try:
+                    after.append(repr(self.cs[i][1]()) == self.exp[i])
+                except Exception as e:  # noqa
+                    after.append(type(e).__name__)
+            if after != [True] * n:
+                msgs.append(("residue", f"after all threads finished the calls {[c[0] for c in self.cs[:n]]}, repeated one after the other, give {after} (True = as in isolation)"))
+            r = self.residue()
+            if r:
+                msgs.append(("residue", r))
+        return (tuple(ok), s.deadlock), msgs
+
+
+def _aes_vectors():
+    """3 (key, iv, data) triples: AES-128 / AES-256 / AES-192 keys, 2 blocks of data each, all bytes pairwise different"""
+    out = []
+    for i, klen in enumerate((16, 32, 24)):
+        key = bytes((37 * i + 11 * j + 5) % 256 for j in range(klen))
+        iv = bytes((53 * i + 7 * j + 1) % 256 for j in range(16))
+        data = bytes((91 * i + 13 * j + 3) % 256 for j in range(32))
+        out.append((key, iv, data))
+    return out
+
+
+class _T_aes(_T_kernel):
+    MODULE = "sharepoint2text.parsing.extractors.pdf._pypdf_aes_fallback"
+
+    def reset(self):
+        self.mod._ROUND_KEY_CACHE.clear()
+
+    def residue(self):
+        if len(self.mod._ROUND_KEY_CACHE) > self.mod._ROUND_KEY_CACHE_MAX:
+            return f"round-key cache holds {len(self.mod._ROUND_KEY_CACHE)} entries"
+        return None
+
+
+class _T_aesdec(_T_aes):
+    """what two or three threads do that extract AES-encrypted PDFs (different files, different keys) at the same time:
+    CBC decryption of strings / streams, ECB decryption of the /Perms block (revision 5/6)"""
+    name = "aesdec"
+
+    def calls(self):
+        a = self.mod
+        v = _aes_vectors()
+        return [("aes_cbc_decrypt/128", lambda: a.aes_cbc_decrypt(*v[0])), ("aes_cbc_decrypt/256", lambda: a.aes_cbc_decrypt(*v[1])),
+                ("aes_ecb_decrypt/192", lambda: a.aes_ecb_decrypt(v[2][0], v[2][2]))]
+
+
+class _T_aesenc(_T_aes):
+    """the encrypting direction (password verification of revision 5/6 documents encrypts; CryptAES.encrypt)"""
+    name = "aesenc"
+
+    def calls(self):
+        a = self.mod
+        v = _aes_vectors()
+        return [("aes_cbc_encrypt/128", lambda: a.aes_cbc_encrypt(*v[0])), ("aes_cbc_encrypt/256", lambda: a.aes_cbc_encrypt(*v[1])),
+                ("aes_ecb_encrypt/192", lambda: a.aes_ecb_encrypt(v[2][0], v[2][2]))]
+
+
+class _T_aesmix(_T_aes):
+    """both directions at once, the same key in two threads (thorough tier)"""
+    name = "aesmix"
+
+    def calls(self):
+        a = self.mod
+        v = _aes_vectors()
+        return [("aes_cbc_decrypt/128", lambda: a.aes_cbc_decrypt(*v[0])), ("aes_cbc_encrypt/128 same key", lambda: a.aes_cbc_encrypt(v[0][0], v[1][1], v[1][2])),
+                ("aes_ecb_encrypt/256", lambda: a.aes_ecb_encrypt(v[1][0], v[2][2]))]
+
+
+TARGETS = {"pdfpatch": _T_pdfpatch, "pdfpatchfail": _T_pdfpatchfail, "roundkeys": _T_roundkeys, "registry": _T_registry,
+           "aesdec": _T_aesdec, "aesenc": _T_aesenc, "aesmix": _T_aesmix}
+# kernel targets have ~150 scheduling points per thread: (2-thread bound, 3-thread bound) per tier; None = not run in that tier
+KERNEL_BOUNDS = {"aesdec": {"quick": (1, None), "thorough": (1, 1)}, "aesenc": {"quick": (1, None), "thorough": (1, 1)},
+                 "aesmix": {"quick": (None, None), "thorough": (1, 1)}}
 _INST = {}
 
 
@@ -372,7 +546,7 @@ def _load(doc):
         if doc not in _GEN:
             _GEN.update(_gen_docs())
         return _GEN[doc]
-    if doc.startswith("deep:"):
+    if doc.startswith(("deep:", "midfail:")):
         if doc not in _GEN:
             _GEN[doc] = c15_docs.load(doc)
         return _GEN[doc]
@@ -543,6 +717,7 @@ def _history_task(arg):
     """arg = (list of histories, baselines dict, payloads); each history = list of operations, run in THIS process sequentially."""
     hists, base, payloads = arg
     _PAYLOADS.update(payloads)
+    import shutil
     import tempfile
     tempfile.tempdir = None
     d = tempfile.mkdtemp(prefix="sp2t-verif-h-")
@@ -558,6 +733,12 @@ def _history_task(arg):
     for x in docs:
         _digest(x)
         sref = _settings_step(sref, "hist", [x], fails, f"the first {x} of the process")
+        gc.collect()
+        left = sorted(os.listdir(d))       # the private temp dir was empty: also the FIRST use of anything must not leave files behind
+        if left:
+            fails.append(("history-residue", "hist", {"history": [x]}, f"temporary files left behind by the first {x} of the process: {left[:5]}"))
+            for f in left:
+                shutil.rmtree(os.path.join(d, f), ignore_errors=True) if os.path.isdir(os.path.join(d, f)) else os.unlink(os.path.join(d, f))
     ref = _snapshot()
     mods = c15_state.ModState()
     for h in hists:
@@ -593,7 +774,6 @@ def _history_task(arg):
         ch = mods.update()
         if ch:
             fails.append(("history-residue", "hist", {"history": h}, f"module-level bindings changed after {h}: {dict(list(sorted(ch.items()))[:8])}"))
-    import shutil
     tempfile.tempdir = None
     shutil.rmtree(d, ignore_errors=True)
     return {"ev": ev, "trans": trans, "fails": fails, "outs": len(outs), "watched_namespaces": len(mods.fast)}
@@ -619,6 +799,10 @@ def _cold_history(arg):
             fails.append(("history-result", "cold", {"history": h[: i + 1]},
                           f"in a fresh process, after {h[:i]}, {x} gives {dg}; as the first operation of a fresh process it gives {base[x]}"))
             break
+    gc.collect()
+    left = sorted(os.listdir(d))
+    if left:
+        fails.append(("history-residue", "cold", {"history": list(h)}, f"temporary files left behind in a fresh process after {h}: {left[:5]}"))
     tempfile.tempdir = None
     shutil.rmtree(d, ignore_errors=True)
     return {"trans": trans, "fails": fails}
@@ -726,6 +910,13 @@ def run(ctx):
         t0, c0 = t1, c1
     plans = []       # (target, threads, bound)
     for name in TARGETS:
+        if name in KERNEL_BOUNDS:
+            b2, b3 = KERNEL_BOUNDS[name]["quick" if quick else "thorough"]
+            if b2 is not None:
+                plans.append((name, 2, b2))
+            if b3 is not None:
+                plans.append((name, 3, b3))
+            continue
         plans.append((name, 2, 2 if quick else 3))
         plans.append((name, 3, 1 if quick else 2))
     roots = P.run_all("verif.props.C15", "_roots_task", [(n, k, b, ctx.seed) for n, k, b in plans], n=min(ctx.ncpu, len(plans)))
@@ -766,7 +957,8 @@ def run(ctx):
     alpha = history_alphabet(ctx.tier)
     failing = [f"trunc:{a}" for a in alpha[:: max(1, len(alpha) // 4)]][:4]
     deep = c15_docs.family(ctx.tier)
-    alpha = alpha + failing + sorted(_gen_docs()) + deep
+    midfail = c15_docs.midfail_family(ctx.tier)
+    alpha = alpha + failing + sorted(_gen_docs()) + deep + midfail
     base, _, info = _baselines(alpha, ctx.ncpu, herr)
     alpha = [a for a in alpha if a in base]
     # restore operations: one document per result class - the one with the smallest stored payload
@@ -790,7 +982,7 @@ def run(ctx):
     pairs = [[a, b] for a in ops for b in ops]
     nsub = 5 if quick else 9
     sub = alpha[:: max(1, len(alpha) // nsub)][:nsub]
-    for extra in [x for x in deep if x.endswith(":2")][:1] + rops[:1]:      # a deep failure and a restore take part in the triples
+    for extra in [x for x in deep if x.endswith(":2")][:1] + rops[:1] + ([] if quick else midfail[:1]):      # a deep failure, a restore and (thorough) a mid-way archive failure take part in the triples
         if extra not in sub:
             sub.append(extra)
     triples = [[a, b, c] for a in sub for b in sub for c in sub]
@@ -811,9 +1003,9 @@ def run(ctx):
         fails += [tuple(x) for x in r["fails"]]
     mark("warm_histories")
     # cold histories: every one in its own import-only process
-    cops = [x for d in rdocs for x in (d, f"restore:{d}")]
+    cops = [x for d in rdocs for x in (d, f"restore:{d}")] + [m for m in (midfail[:2] if quick else midfail) if m in base]
     cpairs = [[a, b] for a in cops for b in cops]
-    csub = [x for d in rdocs[:: max(1, len(rdocs) // 3)][:3] for x in (d, f"restore:{d}")]
+    csub = [x for d in rdocs[:: max(1, len(rdocs) // 3)][:3] for x in (d, f"restore:{d}")] + [m for m in midfail[:1] if m in base]
     ctriples = [] if quick else [[a, b, c] for a in csub for b in csub for c in csub]
     chists = cpairs + ctriples
     random.Random(ctx.seed).shuffle(chists)
@@ -836,20 +1028,26 @@ def run(ctx):
            "schedules": {"executions": execs, "scheduling_steps": steps, "per_target": per, "distinct_outcomes": len(outcomes),
                          "outcomes": dict(list(sorted(outcomes.items()))[:60])},
            "histories": {"histories": hev, "extractions": htrans, "alphabet_size": len(ops), "documents": len(alpha), "restore_operations": len(rops),
-                         "deep_documents": deep, "pairs": len(pairs), "triples": len(triples), "triple_alphabet": sub,
+                         "deep_documents": deep, "midfail_documents": midfail, "pairs": len(pairs), "triples": len(triples), "triple_alphabet": sub,
                          "watched_module_namespaces": watched, "settings_watched": sorted(c15_state.settings())},
            "cold_histories": {"histories": cev, "operations": ctrans, "alphabet": cops, "pairs": len(cpairs), "triples": len(ctriples),
                               "process": "fork of a process that only imported sharepoint2text, one per history"},
            "rule": "schedules: all interleavings of 2 threads with <= 2 (quick) / 3 preemptions and 3 threads with <= 1 / 2 preemptions through "
                    "(1) the pypdf patch/extract/restore section, (2) the AES round-key LRU cache, (3) the lazily built type registry, at line "
-                   "granularity with loop collapsing (first 2 iterations); warm histories: all ordered pairs over the operation alphabet (extract + "
-                   "serialise every fixture / truncated / generated / deep-nesting document; restore the fresh-process payload of one document "
+                   "granularity with loop collapsing (first 2 iterations); (4) compute kernels (every function of the pure-Python AES module "
+                   "traced; cbc/ecb decrypt and encrypt with different keys in 2 (thorough: also 3) threads, <= 1 preemption, each result == "
+                   "the result of the call alone, calls repeated afterwards unchanged); warm histories: all ordered pairs over the operation alphabet (extract + "
+                   "serialise every fixture / truncated / generated / deep-nesting / mid-way failing archive document; restore the fresh-process payload of one document "
                    "per result class) and all triples over a sub-alphabet, each step compared with a fresh-process baseline, process-wide "
                    "settings compared after every step (warm-up included), full process-state snapshot and module-binding identities after "
                    "every history; cold histories: all ordered pairs (thorough: + triples over 3 documents) over {extract, restore} x restore "
-                   "documents, each history in its own import-only process, results against the single-operation fresh process, settings after every step",
+                   "documents (+ mid-way failing archives, extract only), each history in its own import-only process, results against the "
+                   "single-operation fresh process, settings after every step, private temp dir empty at the end; temp dir also empty after the "
+                   "first execution of every operation in a warm worker",
            "cost": phase,
            "exhaustive": True, "bounds": {"preemptions_2_threads": 2 if quick else 3, "preemptions_3_threads": 1 if quick else 2,
+                                          "kernel_targets_preemptions_(2_threads,3_threads)": {k: v["quick" if quick else "thorough"] for k, v in KERNEL_BOUNDS.items()},
+                                          "midfail_archives": len(midfail),
                                           "history_length_pairs_over": len(ops), "history_length_triples_over": len(sub),
                                           "cold_pairs_over": len(cops), "cold_triples_over": len(csub) if not quick else 0,
                                           "deep_nesting_depths": sorted({c15_docs.MULT[x.split(":")[2]] for x in deep}), "restore_classes": len(rops)}}
